@@ -5,7 +5,7 @@ set -e
 cd "$(dirname "$0")"
 export GOFLAGS=-mod=mod GOPROXY=off GOSUMDB=off GOTOOLCHAIN=local
 mkdir -p work/bin evidence
-cp /repo/go.sum harness/go.sum
+cat /repo/go.sum harness/go.sum 2>/dev/null | sort -u > work/go.sum.merged && cp work/go.sum.merged harness/go.sum
 (cd harness && for d in cmd/*/; do n=$(basename $d); go build -tags verif -o ../work/bin/$n ./cmd/$n || exit 1; done)
 mkdir -p work/sany && find specs -name '*.tla' -exec cp {} work/sany/ \;
 (cd work/sany && for f in *.tla; do timeout 120 java -cp /opt/veriftools/tla/tla2tools.jar:/opt/veriftools/tla/CommunityModules-deps.jar tla2sany.SANY "$f" > "$f.sany" 2>&1 || { cat "$f.sany"; echo "SANY failed on $f"; exit 1; }; done)
